@@ -24,6 +24,7 @@ RULE = (
     "processes. Non-trivial = the operation actually consumed randomness (a third run with another seed gives a different output). "
     "distinct = distinct (operation, case JSON)."
     ' Training operations: in a third of the cases a drawn set of Cholesky factorisations fails (injected numpy LinAlgError), identically in every compared run.'
+    ' Also: training on 70 / 130 / 260 samples with 40 .. 300 conditions; every training is repeated directly with a fresh model.'
 )
 ASSUMPTIONS = [
     "operations that raise for the generated parameters are counted and skipped (they must raise in both runs)",
@@ -60,7 +61,7 @@ OPS = [
 
 def budgets(tier):
     if tier == "quick":
-        return {"examples": 160, "max_s": 85, "shrink_s": 25, "shards": 1}
+        return {"examples": 160, "max_s": 110, "shrink_s": 25, "shards": 1}
     return {"examples": 1200, "max_s": 900, "shrink_s": 120, "shards": 16}
 
 
@@ -189,6 +190,21 @@ def _fixed_cases():
             if variant == 1 and op.startswith("sample:"):
                 c_["chol_fail"] = [0, 3, 9, 17, 30]  # training that meets (injected) Cholesky breakdowns
             yield c_
+    # training on as many samples (cell lines) and treatments as a real screen has: 70 / 130 / 260 samples, 40 .. 300 conditions
+    for op in [o for o in OPS if o.startswith("sample:") or o == "cli:train_model"]:
+        for ns_, nt_ in ((70, 40), (130, 300)) + (((260, 90),) if op.startswith("sample:") else ()):
+            rows_ = []
+            tn_ = lambda k_: S.treat_name(k_)[0]
+            td_ = lambda k_: S.treat_name(k_)[1]
+            for s_ in range(ns_):
+                a_, b_ = (3 * s_) % nt_, (3 * s_ + 1 + s_ % 5) % nt_
+                rows_.append({"s": "s%d" % s_, "p": "obs%d" % (s_ % 4), "t": [tn_(a_), tn_(b_)], "d": [td_(a_), td_(b_)], "o": 0.2 + 0.6 * ((s_ * 37) % 100) / 100.0})
+                rows_.append({"s": "s%d" % s_, "p": "obs%d" % (s_ % 4), "t": [tn_(a_), "ctl"], "d": [td_(a_), 0.0], "o": 0.7})
+                rows_.append({"s": "s%d" % s_, "p": "obs%d" % (s_ % 4), "t": [tn_(b_), "ctl"], "d": [td_(b_), 0.0], "o": 0.6})
+                rows_.append({"s": "s%d" % s_, "p": "u%d" % (s_ % 3), "t": [tn_((a_ + 2) % nt_), tn_(b_)], "d": [td_((a_ + 2) % nt_), td_(b_)], "o": 0.5})
+            for t_ in range(nt_):  # every condition occurs
+                rows_.append({"s": "s%d" % (t_ % ns_), "p": "u%d" % (t_ % 3), "t": [tn_(t_), tn_((t_ + 1) % nt_)], "d": [td_(t_), td_((t_ + 1) % nt_)], "o": 0.5})
+            yield {"op": op, "screen": {"arity": 2, "control": "ctl", "rows": rows_, "observed": ["obs0", "obs1", "obs2", "obs3"], "ns": ns_, "nt": nt_, "ssp": False}, "seed": 4000 + ns_, "ambient": [3, 9], "ambient_draws": [1, 2], "params": {}, "flag": True, "fraction": 0.5, "n_thetas": 6, "D": 2, "k": 1}
 
 
 # ---------------------------------------------------------------- canonical outputs
@@ -345,13 +361,13 @@ def run_op(case, seed, cache=None):
                 model.add_observations(observed)
             with _cholesky_faults(case.get("chol_fail")):
                 h = sampling.sample(model=model, results=ThetaHolder(n_thetas=3), seed=seed, n_chains=2, chain_index=1, n_burnin=1, thin=1)
-            if case.get("chol_fail"):
+            if True:
                 rep_ = cls(experiment_space=ExperimentSpace.from_screen(screen), n_embedding_dimensions=case["D"])
                 if observed is not None:
                     rep_.add_observations(observed)
-                with _cholesky_faults(case["chol_fail"]):
+                with _cholesky_faults(case.get("chol_fail")):
                     hr_ = sampling.sample(model=rep_, results=ThetaHolder(n_thetas=3), seed=seed, n_chains=2, chain_index=1, n_burnin=1, thin=1)
-                require(canon_thetas(hr_) == canon_thetas(h), op + ".repeatable_when_factorisations_fail", lambda: "two trainings with identical data, seed and the same (injected) Cholesky failures %r give different posterior samples" % (case["chol_fail"],))
+                require(canon_thetas(hr_) == canon_thetas(h), op + (".repeatable_when_factorisations_fail" if case.get("chol_fail") else ".repeatable"), lambda: "two trainings of fresh models with identical data and seed%s give different posterior samples" % ((" and the same (injected) Cholesky failures %r" % (case["chol_fail"],)) if case.get("chol_fail") else ""))
             # two more models of the same class, alive together and stepped in turn, each with its own seeded generator: the first one's
             # states are those of a model stepped alone with that generator (another live model is not an input)
             def fresh_model(rng_seed):
